@@ -53,7 +53,7 @@ def main():
     ncol = len(box[0])
     flat = [x for row in box for x in row]
     frames = fakemd.free_flight([a[2] for a in atoms], [a[3] for a in atoms], flat,
-                                ctl.cfg.get("box_rate"), dt, nsteps, sub)
+                                ctl.cfg.get("box_rate"), dt, nsteps, sub, ctl.cfg.get("accel"))
     total = ctl.cfg.get("frames")
     if total is not None:
         frames = frames[:int(total)]
